@@ -386,6 +386,33 @@ func genTable(r *simrt.RNG, used map[string]bool, srs gpkgh.SRS, t tms20.TileMat
 	}
 	tb.Columns = append(tb.Columns, gpkgh.Column{Name: tb.GeomCol, Type: tb.GeomType, NotNull: geomNotNull})
 	tb.Columns = append(tb.Columns, cols[pos:]...)
+	fidBase := int64(0)
+	if len(w.Source.Tables) > 0 && r.Chance(0.12) {
+		// a twin of an earlier table: same column names and types, same geometry column and
+		// type, another name and other rows
+		like := w.Source.Tables[r.Intn(len(w.Source.Tables))]
+		if like.Spatial {
+			tb.GeomType, tb.GeomCol = like.GeomType, like.GeomCol
+			tb.Columns = append([]gpkgh.Column(nil), like.Columns...)
+			k := 0
+			for _, c := range like.Columns {
+				if c.Name == like.GeomCol {
+					if c.NotNull {
+						nullGeoms = false
+					}
+					continue
+				}
+				if c.PK && r.Chance(0.6) {
+					for _, row := range like.Rows {
+						if v := row.Vals[k].I; v != nil && *v >= fidBase && *v < 1<<40 {
+							fidBase = *v + 1
+						}
+					}
+				}
+				k++
+			}
+		}
+	}
 	var n int
 	switch x := r.Intn(10); {
 	case x < 1:
@@ -408,7 +435,7 @@ func genTable(r *simrt.RNG, used map[string]bool, srs gpkgh.SRS, t tms20.TileMat
 		n = 1050 + r.Intn(1500) // now and then a table longer than the default page (1000 rows)
 		w.PageSize = []int{1000, 1000, 999, 1024, 512}[r.Intn(5)]
 	}
-	fid := int64(1 + r.Intn(100))
+	fid := fidBase + int64(1+r.Intn(100))
 	for i := 0; i < n; i++ {
 		var row gpkgh.Row
 		for _, col := range tb.Columns {
